@@ -234,6 +234,12 @@ def finish (s : St) : Outcome :=
 def run (homes : Env) (text : Str) (env : Env) : Outcome :=
   finish (text.foldl (step homes) { env := env })
 
+/-- `WorkflowConfig.filter_env` (cylc/flow/config.py) on one namespace: `[environment filter]`
+`include` (empty = everything) / `exclude` decide MEMBERSHIP only; the order stays the
+configuration order of `[environment]` -/
+def filterEnv (incl excl : List Str) (defs : List (Str × Str)) : List (Str × Str) :=
+  defs.filter fun d => (incl.isEmpty || incl.contains d.1) && !excl.contains d.1
+
 /-- the whole pipeline: definitions -> function body -> bash -/
 def exportEnv (esc : Bool) (homes : Env) (defs : List (Str × Str)) (env : Env) : Outcome :=
   run homes (bodyText esc defs) env
